@@ -2,6 +2,7 @@ package rtwire
 
 import (
 	"fmt"
+	"math"
 
 	"verif/harness/vproto"
 )
@@ -336,6 +337,45 @@ func GenLarge(r *vproto.Rng, par [2]int, kind string, n int) *Hist {
 		Op{Del: true, ID: r.Intn(n)}, Op{Del: true, ID: n + 1}, Op{ID: n + 2})
 	h.Queries = []Box{{-1e6, -1e6, 1e6, 1e6}, {0, 0, 2000, 4100}, {1000, 1000, 1100, 1100}, {4031, 4031, 5000, 5000}, {-5, -5, -1, -1}}
 	h.Class = fmt.Sprintf("large%d-%s-m%dM%d", n, kind, par[0], par[1])
+	return h
+}
+
+// GenFan: an INTERNAL node with more than 128 children out of a few hundred objects.  The points
+// p_i = (2^-i, 2^-i) are inserted in the order i = 0, 1, 2, ...: at every leaf split pickSeeds takes the two extreme
+// points, everything else needs far less enlargement on the side of the cluster near 0, so the split is as unbalanced
+// as MinChildren allows, the big group keeps receiving the new points and the root gains a new MinChildren-entry leaf
+// every MinChildren insertions.  `silent` inserts build the tree, then reported operations (each with the full dump
+// and the query batch) push the root across 128 / 129 / 130 children and through its split (height 3), delete stored
+// objects below root entries with index >= 128 (leaf underflow: the root's entry list is filtered and the orphan
+// re-inserted), delete absent objects and insert again.  Differences such as 2^-1 - 2^-130 are not exact in float64,
+// so the class carries "specOnly" (judged by the Spec alone).
+func GenFan(par [2]int, kind string, silent int, reported int) *Hist {
+	h := &Hist{Min: par[0], Max: par[1], Kind: kind, Scale: 1}
+	n := silent + reported + 4
+	for i := 0; i < n; i++ {
+		c := math.Ldexp(1, -i)
+		h.Pool = append(h.Pool, Box{c, c, c, c})
+	}
+	for i := 0; i < silent; i++ {
+		h.Ops = append(h.Ops, Op{ID: i, Silent: true})
+	}
+	for i := silent; i < silent+reported; i++ {
+		h.Ops = append(h.Ops, Op{ID: i})
+		switch (i - silent) % 5 {
+		case 1: // a stored object in a leaf below a root entry with index around 128 (leaf k holds the ids Min*(k-1)...)
+			h.Ops = append(h.Ops, Op{Del: true, ID: par[0]*127 + (i-silent)/5})
+		case 4: // ... and one a little further to the right, and one from the big cluster
+			h.Ops = append(h.Ops, Op{Del: true, ID: par[0]*129 + (i-silent)/5}, Op{Del: true, ID: i - 7})
+		case 2: // an absent object
+			h.Ops = append(h.Ops, Op{Del: true, ID: n - 1})
+		case 3: // an early object (root entry with a small index), re-inserted
+			h.Ops = append(h.Ops, Op{Del: true, ID: (i - silent) * 3}, Op{ID: (i - silent) * 3})
+		}
+	}
+	lo := math.Ldexp(1, -(silent - 4))
+	h.Queries = []Box{{-1, -1, 2, 2}, {lo, lo, lo, lo}, {0, 0, math.Ldexp(1, -(silent - 30)), 1}, {-5, -5, -1, -1},
+		{math.Ldexp(1, -3), math.Ldexp(1, -3), math.Ldexp(1, -3), math.Ldexp(1, -3)}, {0, 0, 0, 0}}
+	h.Class = fmt.Sprintf("fan%d-specOnly-%s-m%dM%d", silent, kind, par[0], par[1])
 	return h
 }
 
@@ -705,6 +745,11 @@ func Gen(seed uint64, tier string) []*Hist {
 		h := GenHist(rx, []int{0, 3, 2, 1, 5}[i%5], WideParams[i%len(WideParams)], Kinds[i%len(Kinds)], 30+rx.Intn(25), 5)
 		h.Class = "wide-" + h.Class
 		hs = append(hs, h)
+	}
+	// internal nodes with more than 128 children (a few hundred objects each)
+	hs = append(hs, GenFan([2]int{2, 130}, "pt", 378, 16), GenFan([2]int{1, 129}, "ptr", 250, 14), GenFan([2]int{2, 200}, "bnd", 452, 12))
+	if tier == "thorough" {
+		hs = append(hs, GenFan([2]int{3, 140}, "bnd", 520, 40), GenFan([2]int{2, 130}, "ptr", 370, 60), GenFan([2]int{1, 300}, "pt", 425, 40))
 	}
 	return hs
 }
